@@ -54,7 +54,7 @@ add("C06", "exploration",
 
 add("C14", "fault_enumeration",
     "runtime monitoring with fault injection: a database/sql driver wrapper numbers the driver calls of a batch and fails, cancels or kills the process at every call index; model comparison after every attempt, retry, repetition and reopen; race detector",
-    "For the chosen batch of each history every driver call (begin, each prepare, every statement exec, commit) is faulted in turn with an injected error and with a context cancellation, and sampled (thorough: all) calls with a process kill in a child process; after each faulted attempt, each retry, the final success, two repetitions and every close/reopen the query panel must equal the model (failed = no-op, returned nil = applied once); 500-700-event batches get faults at sampled late calls; plain histories also run in child processes whose pwrite64/fsync/fdatasync calls are failed by strace. Exhaustive over call indexes per enumerated batch; histories are sampled." + RACE,
+    "For the chosen batch of each history every driver call (begin, each prepare, every statement exec, commit) is faulted in turn with an injected error and with a context cancellation, and sampled (thorough: all) calls with a process kill in a child process; after each faulted attempt, each retry, the final success, two repetitions and every close/reopen the query panel must equal the model (failed = no-op, returned nil = applied once); 500-700-event batches get faults at sampled late calls; plain histories also run in child processes whose pwrite64/fsync/fdatasync calls are failed by strace; handler-level restarts (history through one SQLiteHandler, stop, close, reopen, new handler) must answer a REQ panel as before and as the model says. Exhaustive over call indexes per enumerated batch; histories are sampled." + RACE,
     "Trusts the fault driver wrapper (kit/faultsql, forwards every optional interface go-sqlite3 implements) and the SQLite model; faults inside SQLite's own I/O layer are not injected; kill = os.Exit in a child, not power loss.",
     "DESIGN.md section 4, C14")
 
@@ -72,7 +72,7 @@ add("C07", "exploration",
 
 add("C15", "exploration",
     "runtime monitoring: porcupine linearizability checking of logical-clock-stamped Add/Find/Len histories against the sequential retention/query specification; concurrent invariant probes; Go race detector; verifPoint delays inside critical sections",
-    "2-8 goroutines (directly and through concurrent CacheHandler sessions) issue related insertions, queries and listings on one small store; each recorded history must be linearizable w.r.t. the deterministic sequential specification (porcupine; a timeout is inconclusive); a long stress mix checks every concurrent listing against the store invariants; the router registry is stressed with concurrent subscribe/close/disconnect/publish; any race report in mocrelay frames is a violation. Held on the histories counted in the evidence." + RACE,
+    "2-8 goroutines (directly and through concurrent CacheHandler sessions) issue related insertions, queries and listings on one small store; each recorded history must be linearizable w.r.t. the deterministic sequential specification (porcupine; a timeout is inconclusive); a long stress mix checks every concurrent listing against the store invariants; dumps of a 600-900-event cache taken during replacements and deletions must satisfy the invariants and list every pinned address exactly once; the router registry is stressed with concurrent subscribe/close/disconnect/publish; any race report in mocrelay frames is a violation. Held on the histories counted in the evidence." + RACE,
     "Schedules are sampled; histories use pairwise distinct created_at so that the sequential specification is deterministic; the race detector only sees paths the workload drives concurrently.",
     "DESIGN.md section 4, C15")
 
@@ -90,7 +90,7 @@ add("C11", "exploration",
 
 add("C17", "exploration",
     "runtime monitoring: per-limit predicate oracle over messages driven through the real concurrent middleware wrapper in front of a recording handler (sentinel-synchronised), stacks in seeded orders, NIP-11-built chains for all 128 limit subsets; race detector",
-    "Every client message of ~126k / 1.9M seeded messages sent through mw(recordingHandler).ServeNostr is judged against the statement's predicates: forwarded deep-equal and in order iff it respects every configured limit, otherwise exactly one OK(false,id)/CLOSED(sub id) and nothing forwarded, with all scripted server messages passing unchanged and in order; covers each of the 10 stateless limit middlewares at limit-1/limit/limit+1/far, stacks of 2-6, and BuildMiddlewareFromNIP11 for all 128 subsets of the seven limits and documents without a limitation block." + RACE,
+    "Every client message of ~126k / 1.9M seeded messages sent through mw(recordingHandler).ServeNostr is judged against the statement's predicates: forwarded deep-equal and in order iff it respects every configured limit, otherwise exactly one OK(false,id)/CLOSED(sub id) and nothing forwarded, with all scripted server messages passing unchanged and in order; covers each of the 10 stateless limit middlewares at limit-1/limit/limit+1/far (timestamps up to the end of the int64 range, created_at limit value 0 included), stacks of 2-6, and BuildMiddlewareFromNIP11 for all 128 subsets of the seven limits and documents without a limitation block." + RACE,
     "created_at verdicts keep 90 s from the moving boundary; byte-vs-rune length, over-long CLOSE ids and limit-violating AUTH events are not claimed; the position of max_subscriptions in the chain is left open (either order accepted).",
     "DESIGN.md section 4, C17")
 
@@ -120,19 +120,19 @@ add("C08", "exploration",
 
 add("C09", "exploration",
     "runtime monitoring: reply-conservation checker over merged sessions with scripted children whose verdicts/reasons/counts identify the submission they answer; race detector + verifPoint delays",
-    "2-5 scripted children answer every EVENT/COUNT after seeded delays with verdicts, reasons and counts that are a function of (child, id, occurrence); the client pipelines requests over tiny id alphabets with the same id several times in flight and CLOSEs in between; at quiescence #OK(id) = #EVENT(id), accepting OKs = all-accept submissions, each rejection begins with the full reason (prefix included) of the lowest-index or earliest-replying rejecter of a distinct submission, and COUNT replies are one per request carrying the per-request maxima. Held on the sessions counted in the evidence." + RACE,
+    "2-5 (one session in twelve: 6-25) scripted children answer every EVENT/COUNT after seeded delays with verdicts, reasons and counts that are a function of (child, id, occurrence); the client pipelines requests over tiny id alphabets with the same id several times in flight and CLOSEs in between; at quiescence #OK(id) = #EVENT(id), accepting OKs = all-accept submissions, each rejection begins with the full reason (prefix included) of the lowest-index or earliest-replying rejecter of a distinct submission, and COUNT replies are one per request carrying the per-request maxima. Held on the sessions counted in the evidence." + RACE,
     "Children answer the same id in submission order (different ids out of order); 'first rejecting child' is read as lowest index or earliest reply.",
     "DESIGN.md section 4, C09")
 
 add("C12", "exploration",
     "runtime monitoring: recording handler behind NewRelay + real WebSocket client (coder/websocket) with pipelined seeded frame sequences; frame-by-frame conservation oracle (admitted = valid authentic frames in order; one rejection per other frame; handler output intact and ordered); race detector",
-    "Per connection 20-200 pipelined frames: valid messages of all five types, genuine hostile-content events, every C11 corruption class, non-messages, invalid UTF-8, binary frames, unsigned / altered-after-admission / wrong-canonicalisation / unparsable-key events; the handler log must equal the valid authentic frames once each in order, the client must get exactly one rejection per other frame, a sentinel REQ after the last frame must still get through, and every marked handler emission (all seven server message types, hostile strings) must arrive as one text frame decoding to the emitted value, in order; some sessions outlive the send timeout while their peer keeps reading. Held on the connections/frames counted in the evidence." + RACE,
+    "Per connection 20-200 pipelined frames: valid messages of all five types, genuine hostile-content events, every C11 corruption class, non-messages, invalid UTF-8, binary frames, properly signed events with an invalid field, unsigned / altered-after-admission / wrong-canonicalisation / unparsable-key events; the handler log must equal the valid authentic frames once each in order, the client must get exactly one rejection per other frame, a sentinel REQ after the last frame must still get through, and every marked handler emission (all seven server message types, hostile strings) must arrive as one text frame decoding to the emitted value, in order; some sessions outlive the send timeout while their peer keeps reading. Held on the connections/frames counted in the evidence." + RACE,
     "Frames stay within the configured size limit and rate limit (both raised); rejections are counted, not matched to frames (a NOTICE does not name its frame); reuses C11's generators and reference validator for what a frame denotes.",
     "DESIGN.md section 4, C12")
 
 add("C13", "exploration",
     "runtime monitoring: goroutine-leak monitor (runtime.Stack attribution by creating frame), registry/gauge conservation and a bounded-progress watchdog with parked-goroutine witness over seeded handler compositions x histories x cut points x endings; stalled raw-TCP WebSocket peer for the send-timeout clause; race detector",
-    "Seeded compositions (default, cache, router, SQLite, merges nested once; 0-5 of all provided middlewares incl. Prometheus and NIP-11 chains) serve a seeded history that is cut at a seeded point by cancel (peer draining or stalled) or inbound close; ServeNostr must return within the bound (witness: a goroutine parked in mocrelay code), no goroutine started by mocrelay code during the session may survive, router registries and Prometheus gauges must be back at their previous values; a SQLite session must return on cancel even while its bulk inserter is stalled by a foreign write lock and the queue is full; a raw TCP peer that finishes the WebSocket handshake and never reads must be dropped within 50 x send timeout for every send-timeout x ping-interval (incl. disabled) x start-delay combination. Held on the sessions/compositions counted in the evidence." + RACE,
+    "Seeded compositions (default, cache, router, SQLite, merges nested once; 0-5 of all provided middlewares incl. Prometheus and NIP-11 chains) serve a seeded history that is cut at a seeded point by cancel (peer draining, stalled, or stalled after reading 1-3 messages) or inbound close; ServeNostr must return within the bound (witness: a goroutine parked in mocrelay code), no goroutine started by mocrelay code during the session may survive, router registries and Prometheus gauges must be back at their previous values; a router subscriber with 2..buffer deliveries queued that reads 0-2 of them, stalls and is cancelled must leave nothing behind (run twice per handler); a SQLite session must return on cancel even while its bulk inserter is stalled by a foreign write lock and the queue is full; a raw TCP peer that finishes the WebSocket handshake and never reads must be dropped within 50 x send timeout for every send-timeout x ping-interval (incl. disabled) x start-delay combination, also while it keeps sending refused frames, and Relay.ServeHTTP must then return. Held on the sessions/compositions counted in the evidence." + RACE,
     "Liveness is restated as bounded progress on an otherwise idle process (sessions run one at a time so that goroutines can be attributed); the WebSocket clause is judged in wall-clock time with a 50x margin (the property itself is about time).",
     "DESIGN.md section 4, C13")
 
